@@ -468,6 +468,85 @@ class Gen:
         sc.vars[v] = ("n", True)
         return form, nm, "f0"
 
+    # ------------------------------------------------------------------ (set v (f .. v ..)) for variadic inlined functions
+    def set_selfref(self, sc, d):
+        """(set v (op x1 .. xk)) with the target variable itself among the operands, at any position, arity 2..5, for the
+        functions the compiler inlines as n-ary reductions / comparison chains (they accumulate into a hinted target)"""
+        r = self.r
+        self.features.add("set-selfref")
+        v = self.fresh("s", sc, noshadow=True)
+        self.reserved.add(v)
+        out = [S("var", v, self.pn(sc))]
+        for _ in range(r.range(1, 3)):
+            op = r.choice(["+", "-", "*", "<", ">", "<=", ">=", "=", "not=", "+", "-", "<", ">="])
+            k = r.range(2, 5)
+            ops = [self.pn(sc) if r.chance(3, 4) else self.lit_n() for _ in range(k)]
+            for pos in set([r.below(k)] + ([r.below(k)] if r.chance(1, 3) else [])):
+                ops[pos] = Sym(v)
+            self.features.add("set-selfref-%s" % ("cmp" if op in ("<", ">", "<=", ">=", "=", "not=") else "arith"))
+            out.append(S("set", v, S(op, *ops)))
+            out.append(S("emit", v))
+            if op in ("<", ">", "<=", ">=", "=", "not="):
+                out.append(S("set", v, S("if", v, r.range(1, 9), r.range(-9, 0))))   # back to a number
+        return S("upscope", *out)
+
+    # ------------------------------------------------------------------ parameter-list combinations x argument counts
+    def sig_calls(self, sc, d):
+        """callee with a random combination of required / &opt / & rest | &keys | &named parameters, called (through a tuple, so
+        that no compile-time arity check applies) with an argument count between min and max+2, in tail and in non-tail
+        position, right after a call that leaves non-nil values above the caller's frame"""
+        r = self.r
+        self.features.add("sig-calls")
+        nreq, nopt = r.range(0, 2), r.range(0, 3)
+        tail = r.choice(["none", "rest", "keys", "named", "rest", "keys"])
+        self.features.add("sig-%d-%d-%s" % (nreq, nopt, tail))
+        tname = self.fresh("f", sc, noshadow=True)
+        hname = self.fresh("h", sc, noshadow=True)
+        dname = self.fresh("f", sc, noshadow=True)
+        c1, c2 = self.fresh("f", sc, noshadow=True), self.fresh("f", sc, noshadow=True)
+        for nm in (tname, hname, dname, c1, c2):
+            self.reserved.add(nm)
+        req = ["rq%d" % i for i in range(nreq)]
+        opt = ["op%d" % i for i in range(nopt)]
+        params = list(req)
+        if opt:
+            params += ["&opt"] + opt
+        ret = [Sym(x) for x in req + opt]
+        if tail == "rest":
+            params += ["&", "more"]
+            ret.append(Sym("more"))
+        elif tail == "keys":
+            params += ["&keys", Lit("stc", [Kw("k"), Sym("kk"), Kw("j"), Sym("jj")])]
+            ret += [Sym("kk"), Sym("jj")]
+        elif tail == "named":
+            params += ["&named", "k", "j"]
+            ret += [Sym("k"), Sym("j")]
+        callee = S("defn", tname, B(*params), B(*ret))
+        lo, hi = nreq, nreq + nopt
+        nargs = r.range(lo, hi + 2) if r.chance(3, 4) else r.range(max(0, lo - 1), hi + 3)
+        args = [r.range(1, 99) for _ in range(min(nargs, hi))]
+        extra = nargs - len(args)
+        if extra > 0 and tail in ("keys", "named") and extra % 2 == 1:
+            # an odd number of keyword arguments is not rejected by janet: make_struct_n pairs the dangling key with whatever
+            # is in the next stack slot (nil after a normal call, stale data after a tail call) - kept out of generation
+            extra += 1
+        if extra > 0:
+            if tail in ("keys", "named"):
+                pool = [Kw("k"), r.range(100, 199), Kw("j"), r.range(200, 299), Kw("c"), 7]
+                args += pool[:extra]
+            else:
+                args += [r.range(300, 399) for _ in range(extra)]
+        mkcall = lambda: S(S(hname, 0), *args)          # fresh nodes each time: positions are stored on the nodes
+        dirty = S("defn", dname, B("&", "xs"), S("length", "xs"))
+        dargs = [r.range(10, 90) for _ in range(r.range(3, 7))]
+        mkd = lambda: S(dname, *dargs)
+        callerT = S("defn", c1, B(), mkd(), mkcall())
+        callerN = S("defn", c2, B(), mkd(), S("def", "res_", mkcall()), mkd(), "res_")
+        order = [S("emit", S(c1)), S("emit", S(c2))]
+        if r.chance(1, 2):
+            order.reverse()
+        return S("upscope", callee, S("def", hname, S("tuple", tname)), dirty, callerT, callerN, *order)
+
     # ------------------------------------------------------------------ quasiquote over every container kind
     def qq_template(self, sc, d, depth, indexed_parent=True, force=None, pure=False):
         """template for (quasiquote ...): tuples, bracket tuples, arrays, tables, structs nested, with unquotes (and splices in
@@ -713,6 +792,10 @@ class Gen:
             return S("emit", self.n(sc, d + 1))
         if c < 16 and r.chance(1, 2):
             return self.qq_statement(sc, d)
+        if c < 16 and r.chance(1, 2):
+            return self.set_selfref(sc, d)
+        if c < 16 and self.closures and r.chance(1, 2):
+            return self.sig_calls(sc, d)
         if c < 16:
             return S("emit", self.x(sc, d + 1))
         if c < 17:
